@@ -125,6 +125,8 @@ def run_dir(acc: Acc, seed: int, idx: int, nmoves: int, only=None) -> None:
                     it.words.append(pg.W(f"[[{it.zid}{rng.choice('abXY01')}]]", form="self_prefix_link"))
                 elif u < 0.24:
                     it.words.append(pg.W(f"see {it.zid} again", form="self_mention"))
+                if rng.random() < 0.06:
+                    it.words.append(pg.W(rng.choice(["tab\there", "col1\tcol2\tcol3", "\u00e9t\u00e9"]), form="plain"))
                 if rng.random() < 0.1 and it.words and not it.words[0].has_meta() and not it.words[0].text.endswith("::"):
                     it.words.insert(0, pg.W("hq::", form="headline_prop"))
         # decoys: the text of an INHERITED tag embedded in a token that is not that tag
@@ -287,6 +289,12 @@ def run_dir(acc: Acc, seed: int, idx: int, nmoves: int, only=None) -> None:
             moved_first = dl_after[k0]
             if dl_after[k0 + 1 : k0 + n_lines] != note_lines[1:]:
                 acc.violation(f"bullets / continuation lines of {zid} not preserved", case, cls="moved note: continuation lines differ")
+            # the first line as WRITTEN in the source file (not as indexed): every word after the ZID is still there, in order
+            fw, mw = note_lines[0].split(), moved_first.split()  # (outer / repeated blanks are not text)
+            if zid in fw and zid in mw:
+                it_ = iter(mw[mw.index(zid) + 1 :])
+                if not all(w in it_ for w in fw[fw.index(zid) + 1 :]):
+                    acc.violation(f"first line of {zid} lost text: {note_lines[0]!r} -> {moved_first!r}", case, cls="moved note: first line lost text")
             want_kind = marker or row["kind"]
             if moved_first[0] != want_kind:
                 acc.violation(f"moved note has kind {moved_first[0]!r}, requested {want_kind!r}", case, cls="moved note: wrong kind")
